@@ -62,8 +62,11 @@ def specs(prop='C03'):
             return base
 
         def put_one(code, i, field, ret_child=True):
+            # assumed contract of FST._put_one on a list field: code None deletes the element (the field shrinks by one),
+            # anything else replaces it one-for-one
             st['calls'].append(('put_one', i, i + 1, field, None, code))
-            st['k'] = 1
+            st['k'] = 0 if code is None else 1
+            st['n'] = st['n'] - 1 + st['k']
             return base
 
         def get_slice(a, b, field, cut=False, **opts):
@@ -126,7 +129,7 @@ def specs(prop='C03'):
         m = case['m']
         f = IFunc(it, loc.node, None, m)
         open_ended = _stop is None
-        code = None if m in ('remove', 'cut', '__delitem__') else 'CODE'
+        code = None if (m in ('remove', 'cut', '__delitem__') or case.get('code_none')) else 'CODE'
         try:
             if m == '_base_indices':
                 r = it.call(f, (self,))
@@ -207,9 +210,8 @@ def specs(prop='C03'):
                 exp_range = (a_abs, b_abs)
                 if m == '__delitem__':
                     exp_stop = stop - (b_abs - a_abs)
-                else:
-                    exp_stop = stop - (b_abs - a_abs) + st['k'] if st['calls'] and st['calls'][0][0] == 'put_slice' \
-                        else stop
+                else:   # list semantics: the window loses the designated elements and gains the k new ones
+                    exp_stop = stop - (b_abs - a_abs) + st['k']
             else:
                 raise sym.Unsupported(m)
         except PyRaise as pr:
@@ -313,6 +315,8 @@ def specs(prop='C03'):
                         native=('k_view', 'replay_view')))
     for m in ('__getitem__', '__setitem__', '__delitem__'):
         cases = [dict(m=m, stop=s, idx='int') for s in stops]
+        if m == '__setitem__':     # view[i] = None is the delete form: the window must shrink with the field
+            cases += [dict(m=m, stop=s, idx='int', code_none=True) for s in stops]
         cases += [dict(m=m, stop=s, idx='slice', lo=lo, hi=hi) for s in stops for lo in (INT, None) for hi in (INT, None)]
         out.append(Fragment(f'view:FSTView.{m}', prop, f'view.{m}', cases, run, native=('k_view', 'replay_view')))
     return out
